@@ -591,6 +591,10 @@ func (e *specEnv) evalCall(n *ECall) sv {
 		need(2)
 		as := args()
 		return sv{app("f64_eq", as[0].t, as[1].t), tBool}
+	case "fadd", "fdiv":
+		need(2)
+		as := args()
+		return sv{app(map[string]string{"fadd": "f64_add", "fdiv": "f64_div"}[n.Fun], as[0].t, as[1].t), tF64}
 	case "pubval":
 		need(1)
 		return sv{app("pubval", args()[0].t), tInt}
